@@ -9,6 +9,7 @@ code, recorded as known finding F10: a signed transaction parked in the pending 
 while no block is under construction.
 -/
 import Brc20.Proofs.NodeSim
+import Brc20.Proofs.NodeRun
 
 namespace Brc20
 open Node
@@ -91,5 +92,34 @@ theorem C01.reorg_keeps_simulation (n : Node) (g : TId → TSpec String String) 
   simp only [Table.step, Option.some.injEq] at e'
   subst e'
   exact s'
+
+/-! ### Every reachable state
+
+`Node.Reach`: the empty node, closed under every operation of the model (initialise, mine, add transactions, signed
+transactions incl. parked ones, finalise, commit, clear, reopen, reorg) with ANY arguments and ANY recorded events,
+as long as the model answers `ok` or an error (a `reject` means the recorded events do not fit the model - a broken
+correspondence - and a `panic` ends the process). -/
+
+/-- The hypothesis `NodeSim` of the theorems above holds in every reachable state: every table refines a plain
+per-key write log. -/
+theorem C01.reachable_nodes_refine {n : Node} (h : Node.Reach n) : ∃ g, NodeSim n g := Node.reach_sim h
+
+/-- **C01 for every reachable state.** There are plain logs `g` which the tables refine, whose stamps obey the block
+discipline (nothing above the height being built; at a block boundary every table except the two pending-pool tables
+carries nothing above the tip and nothing above the highest block ever finalised), and with respect to which EVERY
+reorg the engine does not refuse answers `ok` and makes every table read, for every key, its value at the end of the
+target block - provided the pending-pool tables were not passed a block number above the tip.  That proviso is exactly
+known finding F10 (a signed transaction parked after the tip was finalised is stamped `height + 1`); for the other ten
+tables the window hypothesis of `C01.reorg_restores_tables` is discharged here. -/
+theorem C01.reorg_restores_reachable {n : Node} (h : Node.Reach n) :
+    ∃ g : TId → TSpec String String, NodeSim n g ∧
+      (∀ i, (g i).top ≤ n.nextHeight) ∧
+      (∀ i, (g i).maxEver ≤ max (n.mb + 1) n.nextHeight) ∧
+      (n.lbi.waiting = 0 → ∀ i, i ∉ poolTables → (g i).maxEver ≤ n.mb) ∧
+      (n.lbi.waiting = 0 → ∀ i, i ∉ poolTables → (g i).top ≤ n.latestHeight) ∧
+      ∀ target, ¬ Node.Refused n target →
+        (∀ i, i ∈ poolTables → (g i).maxEver ≤ max n.latestHeight n.mb) →
+        (n.reorg target).2 = .ok ∧ ∀ i k, ((n.reorg target).1.t i).latest k = (g i).readAt k target :=
+  Node.reach_reorg_restores h
 
 end Brc20
